@@ -173,7 +173,10 @@ func queryC12(c *core.RunCtx, ra, rk *run, op core.Op) {
 			oneSeriesPerGroup = true
 		}
 	}
-	comparable := agg == "sum" || agg == "min" || agg == "max" || oneSeriesPerGroup
+	// first/last: the same points may sit in other places (memory / files) in the two databases and lindb
+	// combines such fields in the order it meets the places (known finding of C11), so only presence is compared
+	_ = oneSeriesPerGroup
+	comparable := agg == "sum" || agg == "min" || agg == "max"
 	base := answers[0]
 	for _, a := range answers[1:] {
 		if (a.err == nil) != (base.err == nil) {
